@@ -53,7 +53,8 @@ ASSUMPTIONS = [
 PROBES = ["one-socket-id-towards-two-remote-nodes", "request-outlives-its-subroutine", "purpose-id-differs-from-socket-id", "request-refused-by-stack", "sdk-form", "early-response", "deferred-busy-qubit", "two-requests-one-key", "cross-key-reorder", "wait-polled",
           "wait_any", "wait_single", "create-role", "recv-role", "type-M", "type-K", "legacy-tuples", "qlink-objects",
           "two-apps-concurrent", "retry-fired", "array-addresses-declared-again-by-the-next-subroutine",
-          "keep-and-measure-requests-on-one-key", "rsp-with-min-fidelity", "rsp-retried"]
+          "keep-and-measure-requests-on-one-key", "rsp-with-min-fidelity", "rsp-retried", "malformed-request-refused",
+          "subroutine-faulted-after-its-requests", "busy-qubits-freed-after-the-create-answers"]
 
 GHOSTS = [7, 8]
 T0, T1, T2, T3, T4 = ("R", 0), ("R", 1), ("R", 2), ("R", 3), ("R", 4)
@@ -161,9 +162,41 @@ def gen_scenario(ch: Choices, calm: bool, tier: str = "quick", avoid: Any = ()) 
             addr += 3
             subs.insert(ch.draw(len(subs), "refpos"), {"reqs": [rr], "filler": 0, "waits": [0], "order": [0], "unit_need": vnext,
                                                          "refused": True})
+        if not calm and "faulting-subroutines" not in avoid and ch.flag(1, 6, "malformed"):
+            # injected fault: a keep create that names one qubit address too few; the controller refuses it (the subroutine
+            # faults there, the application catches it) -- nothing of it may reach the link or stay behind
+            so = socks[ch.draw(len(socks), "sock")]
+            rr = Req(j=0, sock=so["sock"], remote=so["remote"], rsock=so["rsock"], role="create", tp="K", n=2, vids=[vnext], busy=[],
+                     q_addr=addr, ent_addr=addr + 1, arg_addr=addr + 2, ghost_delay=0)
+            vnext += 1
+            addr += 3
+            subs.insert(ch.draw(len(subs) + 1, "malpos"), {"reqs": [rr], "filler": 0, "waits": [0], "order": [0], "unit_need": vnext,
+                                                            "malformed": True})
+        if not calm and "faulting-subroutines" not in avoid and not reuse_addr and ch.flag(1, 6, "fault-after"):
+            # injected fault: a subroutine faults right after it issued its requests (the application catches it and goes
+            # on); the requests stay outstanding and their answers must still be consumed, each by its own request
+            cands = [sb for sb in subs if not sb.get("refused") and not sb.get("malformed")
+                     and not any(getattr(r, "defer_wait", False) for r in sb["reqs"])]
+            if cands:
+                sb = cands[ch.draw(len(cands), "fapos")]
+                sb["fault_after"] = True
+                for r in sb["reqs"]:
+                    r.busy = []
+        for sb in subs:
+            # the busy target qubits of receive requests may be freed only after the answers to the create requests were seen
+            if not calm and not sb.get("fault_after") and any(r.busy and r.role == "recv" for r in sb["reqs"]) \
+                    and any(_unhindered(r, sb["reqs"]) for r in sb["reqs"]) and ch.flag(1, 2, "free-late"):
+                sb["free_late"] = True
         apps.append({"id": a, "socks": socks, "subs": subs, "unit": max(vnext, 1), "reuse_addr": reuse_addr and n_subs > 1,
                      "mixed_types": mixed_types})
     return {"apps": apps}
+
+
+def _unhindered(r: Any, reqs: List[Any]) -> bool:
+    """A create request whose answers cannot be held up by a busy target qubit: neither its own nor (answers for one
+    key and role are handled in order) one of another create request on its socket."""
+    return r.role == "create" and not getattr(r, "defer_wait", False) and not getattr(r, "refuse", False) \
+        and not any(x.role == "create" and x.sock == r.sock and x.remote == r.remote and x.busy for x in reqs)
 
 
 def build_program(sub: Dict[str, Any], carried: Optional[List[Any]] = None) -> List[tuple]:
@@ -197,6 +230,14 @@ def build_program(sub: Dict[str, Any], carried: Optional[List[Any]] = None) -> L
             p.append(("recv_epr", T0, T1, T2, T4))
     for i in range(sub["filler"]):
         p.append(("set", ("C", 5), i))
+    if sub.get("fault_after"):
+        p += [("set", T1, 0), ("load", T0, 250, T1)]        # no such array: the subroutine ends here
+    early: List[int] = []
+    if sub.get("free_late"):
+        # first wait for the create requests that are not held up by anything, only then free the busy qubits
+        early = [j for j in sub["order"] if _unhindered(reqs[j], reqs)]
+        for j in early:
+            p += [("set", T0, 0), ("set", T1, 10 * reqs[j].n), ("wait_all", reqs[j].ent_addr, T0, T1)]
     for r in reqs:
         for v in r.busy:
             p += [("set", ("Q", 0), v), ("qfree", ("Q", 0))]
@@ -607,6 +648,8 @@ def run(ch: Choices, opts: Dict[str, Any]) -> Dict[str, Any]:
            for app in sc["apps"] if app.get("mixed_types")
            for k2 in {(r.sock, r.role) for s2 in app["subs"] for r in s2["reqs"]}):
         bump(probes, "keep-and-measure-requests-on-one-key")
+    if any(sb.get("free_late") for app in sc["apps"] for sb in app["subs"]):
+        bump(probes, "busy-qubits-freed-after-the-create-answers")
     if any(app.get("reuse_addr") for app in sc["apps"]):
         bump(probes, "array-addresses-declared-again-by-the-next-subroutine")
     if any(so.get("reused") for app in sc["apps"] for so in app["socks"]):
@@ -651,11 +694,25 @@ def run(ch: Choices, opts: Dict[str, Any]) -> Dict[str, Any]:
                     y = next(g)
                 except StopIteration:
                     break
-                except RuntimeError as e:
+                except Violation:
+                    raise
+                except Exception as e:  # noqa: BLE001
                     if sub.get("refused") and "simulated fault" in str(e):
                         bump(faults, "network-stack-refuses-request")
                         bump(probes, "request-refused-by-stack")
                         trace.add("refused", aid, k)
+                        break
+                    if sub.get("malformed") and isinstance(e, AssertionError) and str(e).startswith("At line") \
+                            and "Not enough qubit addresses" in str(e):
+                        bump(faults, "controller-refuses-malformed-request")
+                        bump(probes, "malformed-request-refused")
+                        trace.add("malformed", aid, k)
+                        break
+                    if sub.get("fault_after") and str(e).startswith("At line") and prog[_line_of(e)][0] == "load":
+                        bump(faults, "subroutine-faults-with-requests-outstanding")
+                        bump(probes, "subroutine-faulted-after-its-requests")
+                        trace.add("faulted", aid, k)
+                        state["orphans"] = True
                         break
                     raise
                 if isinstance(y, tuple) and y and y[0] == "instr":
@@ -667,7 +724,23 @@ def run(ch: Choices, opts: Dict[str, Any]) -> Dict[str, Any]:
                     bump(probes, "wait-polled")
                 yield y
             yield None
+        if any(sb.get("fault_after") for sb in app["subs"]):
+            # the answers to the requests of the subroutine that died are still to come
+            def _answered() -> bool:
+                for reqs in list(ex._epr_create_requests.values()) + list(ex._epr_recv_requests.values()):
+                    for r in reqs:
+                        sb = ex._subroutines.get(r.subroutine_id)
+                        if sb is not None and sb.app_id == aid:
+                            return False
+                return not ex._pending_epr_responses
+            yield ("block", _answered)
         state["done"] += 1
+
+    def _line_of(e: Exception) -> int:
+        try:
+            return int(str(e).split(":", 1)[0].split()[-1])
+        except Exception:  # noqa: BLE001
+            return -1
 
     def _reg(t):
         from sim.rigs.controller import R
